@@ -45,6 +45,12 @@ Latitude (what the property / docstrings leave open; every admissible answer is 
   (h) collections with a sequence-less chromosome Parent are outside the documented input ("there must be associated
       sequence") and are not generated; sequence-less collections have no parent at all.
   (i) second-generation position queries are only run when the first result's bounds lie inside its sequence window.
+  (j) the result may carry more sequence than its bounds (a range equal to the source's bounds re-uses the source's parent; an id
+      query on a collection whose explicit bounds are narrower than its chunk may keep only the part under those bounds): the
+      result's actual sequence window W must satisfy (result bounds & source bounds & source window) <= W <= source window, and every
+      sequence is compared with the model restricted to W.  Bases inside the old and the new bounds may never be lost.
+  (k) variant collections hold SNVs and insertions only: a deletion that removes everything that is left of a sliced member makes the
+      haplotype association in the collection constructor refuse the object by design (C13 / C19 territory).
   cgranges is not installed: only the pure-Python _query_by_position path is decided (DESIGN section 9).
 """
 import itertools
@@ -71,8 +77,8 @@ RULE = (
     "or (id queries) at least one known and the answer is not the whole collection."
 )
 SCOPE = {
-    "quick": {"NSEQ": 640, "NBAND": 400, "NR": 5, "NR2": 3, "POOL": 3, "NSECOND": 2},
-    "thorough": {"NSEQ": 9000, "NBAND": 6000, "NR": 8, "NR2": 4, "POOL": 4, "NSECOND": 3},
+    "quick": {"NSEQ": 160, "NBAND": 80, "NR": 5, "NR2": 3, "POOL": 3, "NSECOND": 2},
+    "thorough": {"NSEQ": 2400, "NBAND": 1280, "NR": 8, "NR2": 4, "POOL": 4, "NSECOND": 3},
 }
 FLOOR = {"quick": 1500, "thorough": 4000}
 REQUIRED_MONITORS = ["pos.members", "pos.bounds", "pos.refusal", "id.members", "member.dict", "member.sequence"]
@@ -109,7 +115,8 @@ def members_from_spec(cspec):
     out = []
     for k, g in enumerate(cspec.get("genes", [])):
         out.append({"t": "gene", "k": k, "ids": [g[x] for x in ("gene_id", "gene_symbol", "locus_tag") if g.get(x) is not None],
-                    "children": [{"blocks": [list(b) for b in t["exons"]], "strand": t["strand"], "coding": bool(t.get("cds")), "j": j}
+                    "children": [{"blocks": [list(b) for b in t["exons"]], "strand": t["strand"], "coding": bool(t.get("cds")), "j": j,
+                                  "cds": [list(b) for b in (t.get("cds") or [])]}
                                  for j, t in enumerate(g["transcripts"])]})
     for k, fc in enumerate(cspec.get("fcolls", [])):
         out.append({"t": "fcoll", "k": k,
@@ -318,13 +325,11 @@ def _rand_vcolls(rng, lo, hi, n):
         blocks = GG.rand_blocks(rng, a, min(hi, a + w), nv, min_len=1, max_len=3, adjacent_prob=0.0)
         variants = []
         for j, (s, e) in enumerate(blocks):
-            kind = rng.choice(["SNV", "SNV", "SNV", "insertion", "deletion"])
+            kind = rng.choice(["SNV", "SNV", "insertion"])       # no deletions: latitude (k)
             if kind == "SNV":
                 e, alt = s + 1, rng.choice("ACGT")
-            elif kind == "insertion":
-                e, alt = s + 1, "".join(rng.choice("ACGT") for _ in range(rng.randint(2, 4)))
             else:
-                alt = rng.choice(["", "A"]) if e - s > 1 else ""
+                e, alt = s + 1, "".join(rng.choice("ACGT") for _ in range(rng.randint(2, 4)))
             variants.append({"start": s, "end": e, "alt": alt, "type": kind, "name": f"var{k}_{j}", "id": f"vid{k}_{j}"})
         out.append({"variants": variants, "variant_collection_name": f"vc{k}", "variant_collection_id": f"vcid{k}", "qualifiers": {}})
     return out
@@ -597,8 +602,26 @@ def _sorted_children(d, t):
 # ======================================================================================================================
 # monitors
 # ======================================================================================================================
-def _check_members(ctx, monitor, key, M, src, r, expected, optional, nw, detail):
-    """Membership + member.dict + member.sequence for one result.  Returns True when membership was as expected."""
+def _actual_window(r):
+    """Chromosome extent [a, b) of the sequence the result actually carries (None: no sequence).  Read from the Parent
+    structure documented for seq_to_parent / seq_chunk_to_parent; it is only *validated* against the admissible range and
+    then used to restrict the model - the bases themselves always come from the model."""
+    from inscripta.biocantor.parent import SequenceType
+
+    loc = r.chunk_relative_location
+    p = loc.parent
+    if p is None or p.sequence is None:
+        return None
+    if p.has_ancestor_of_type(SequenceType.SEQUENCE_CHUNK):
+        cp = p.first_ancestor_of_type(SequenceType.SEQUENCE_CHUNK)
+        on = cp.sequence.location_on_parent
+        return on.start, on.end
+    return 0, len(p.sequence)
+
+
+def _check_members(ctx, monitor, key, M, src, r, expected, optional, rb, detail):
+    """Membership + member.dict + member.sequence for one result.  rb = bounds of the result (None: unbounded / empty).
+    Returns (membership as expected, actual sequence window of the result or None)."""
     got = sorted((t, str(x.guid)) for t, x in _real_members(r))
     opt = {(m["t"], str(m["guid"])) for m in optional}
     want = sorted((m["t"], str(m["guid"])) for m in expected)
@@ -607,8 +630,26 @@ def _check_members(ctx, monitor, key, M, src, r, expected, optional, nw, detail)
                    missing=[g for g in want if g not in got_cmp][:6], extra=[g for g in got_cmp if g not in want][:6],
                    spans_missing=[list(span(m)) for m in expected if (m["t"], str(m["guid"])) not in got_cmp][:6], **detail)
     if not ok:
-        return False
+        return False, None
     genome = M.get("genome")
+    srcwin = M["win"]
+    # ---- which sequence does the result carry?  latitude (j): core <= actual window <= source window --------------------
+    aw = None
+    if genome is not None and srcwin is not None and rb is not None:
+        core = (max(rb[0], M["start"], srcwin[0]), min(rb[1], M["end"], srcwin[1]))
+        aw, exc = ctx.call(_actual_window, r)
+        if exc is not None:
+            aw = None
+        if core[0] < core[1]:
+            if aw is None:
+                ctx.check("member.sequence", False, key=("window", key[0], "result-has-no-sequence"), core=list(core), exc=repr(exc)[:200] if exc else None, **detail)
+            else:
+                lost = ("start" if aw[0] > core[0] else "") + ("end" if aw[1] < core[1] else "")
+                beyond = aw[0] < srcwin[0] or aw[1] > srcwin[1]
+                ctx.check("member.sequence", not lost and not beyond, key=("window", key[0], "lost-" + lost if lost else "beyond-source"),
+                          must_cover=list(core), result_window=list(aw), result_bounds=list(rb), **detail)
+        if aw is not None and not (0 <= aw[0] <= aw[1] <= len(genome)):
+            aw = None
     byguid = {str(x.guid): (t, x) for t, x in _real_members(r)}
     for m in list(expected) + [o for o in optional if (o["t"], str(o["guid"])) in got]:
         t, real = byguid[str(m["guid"])]
@@ -635,7 +676,7 @@ def _check_members(ctx, monitor, key, M, src, r, expected, optional, nw, detail)
             ctx.check("member.dict", same and ids_same and pos_same, key=(t, key[0], "dict" if not same else ("ids" if not ids_same else "span")),
                       differing_fields=diff, member_span=list(span(m)), got_span=[real.start, real.end], **detail)
         # ---- sequences ------------------------------------------------------------------------------------------------
-        if genome is None or nw is None:
+        if aw is None:
             continue
         kids = {c.guid: c for c in real.iter_children()}
         if t != "vcoll":
@@ -644,15 +685,16 @@ def _check_members(ctx, monitor, key, M, src, r, expected, optional, nw, detail)
                 if rc is None:
                     continue
                 pos = PM.positions([tuple(b) for b in c["blocks"]], c["strand"])
-                pin = [p for p in pos if nw[0] <= p < nw[1]]
+                pin = [p for p in pos if aw[0] <= p < aw[1]]
                 want_seq = SM.extract(pin, c["strand"], genome)
                 res, exc = ctx.call(rc.get_spliced_sequence)
                 if not pin:
-                    ctx.check("member.sequence", exc is not None or str(res) == "", key=(t, key[0], "no-base-in-window"), got=None if exc else str(res)[:60], **detail)
+                    ctx.check("member.sequence", exc is not None or str(res) == "", key=(t, key[0], "no-base-in-window"), got=None if exc else str(res)[:60],
+                              result_window=list(aw), blocks=c["blocks"], **detail)
                 else:
                     cut = len(pin) < len(pos)
                     ctx.check("member.sequence", exc is None and str(res) == want_seq, key=(t, key[0], "spliced", "cut" if cut else "whole"),
-                              blocks=c["blocks"], strand=c["strand"], window=list(nw), got=None if exc else str(res)[:120], want=want_seq[:120],
+                              blocks=c["blocks"], strand=c["strand"], result_window=list(aw), got=None if exc else str(res)[:120], want=want_seq[:120],
                               exc=repr(exc)[:200] if exc else None, **detail)
                     if c["coding"] and not cut:
                         sc_ = srcm.guid_map.get(c["guid"])
@@ -660,21 +702,24 @@ def _check_members(ctx, monitor, key, M, src, r, expected, optional, nw, detail)
                         if e1 is None:
                             s2, e2 = ctx.call(lambda: str(rc.get_cds_sequence()))
                             ctx.check("member.sequence", e2 is None and s1 == s2, key=(t, key[0], "cds-twin"), blocks=c["blocks"], strand=c["strand"],
-                                      window=list(nw), got=s2, want=s1, exc=repr(e2)[:200] if e2 else None, **detail)
+                                      result_window=list(aw), got=s2, want=s1, exc=repr(e2)[:200] if e2 else None, **detail)
         ms, me = span(m)
-        a, b = max(ms, nw[0]), min(me, nw[1])
+        a, b = max(ms, aw[0]), min(me, aw[1])
         res, exc = ctx.call(real.get_reference_sequence)
         if a >= b:
-            ctx.check("member.sequence", exc is not None or str(res) == "", key=(t, key[0], "member-no-base-in-window"), got=None if exc else str(res)[:60], **detail)
+            ctx.check("member.sequence", exc is not None or str(res) == "", key=(t, key[0], "member-no-base-in-window"), got=None if exc else str(res)[:60],
+                      result_window=list(aw), member_span=[ms, me], **detail)
         else:
             ctx.check("member.sequence", exc is None and str(res) == genome[a:b], key=(t, key[0], "member-reference", "cut" if (a, b) != (ms, me) else "whole"),
-                      member_span=[ms, me], window=list(nw), got=None if exc else str(res)[:120], want=genome[a:b][:120],
+                      member_span=[ms, me], result_window=list(aw), got=None if exc else str(res)[:120], want=genome[a:b][:120],
                       exc=repr(exc)[:200] if exc else None, **detail)
-    if genome is not None and nw is not None and nw[0] < nw[1]:
-        res, exc = ctx.call(r.get_reference_sequence)
-        ctx.check("member.sequence", exc is None and str(res) == genome[nw[0]:nw[1]], key=("collection-reference", key[0]), window=list(nw),
-                  got=None if exc else str(res)[:120], want=genome[nw[0]:nw[1]][:120], exc=repr(exc)[:200] if exc else None, **detail)
-    return True
+    if aw is not None and rb is not None:
+        a, b = max(rb[0], aw[0]), min(rb[1], aw[1])
+        if a < b:
+            res, exc = ctx.call(r.get_reference_sequence)
+            ctx.check("member.sequence", exc is None and str(res) == genome[a:b], key=("collection-reference", key[0]), result_window=list(aw),
+                      result_bounds=list(rb), got=None if exc else str(res)[:120], want=genome[a:b][:120], exc=repr(exc)[:200] if exc else None, **detail)
+    return True, aw
 
 
 def _pos_query(ctx, M, obj, s, e, flags, gen, mode):
@@ -685,13 +730,19 @@ def _pos_query(ctx, M, obj, s, e, flags, gen, mode):
     x = expect_position(M, s, e, co, cw, ex)
     s0, e0 = x["range"]
     detail = {"query": [s, e], "flags": {"coding_only": co, "completely_within": cw, "expand_location_to_children": ex},
-              "collection_bounds": [M["start"], M["end"]], "window": list(M["win"]) if M["win"] else None, "generation": gen}
+              "collection_bounds": [M["start"], M["end"]], "source_window": list(M["win"]) if M["win"] else None, "generation": gen}
     tags = range_tags(M, s, e)
     lv = bin_levels_crossed(s0, e0)
-    res, exc = ctx.call(obj.query_by_position, s, e, co, cw, ex)
+    if ((s or 0) + (e or 0) + gen) % 2:
+        res, exc = ctx.call(obj.query_by_position, s, e, co, cw, ex)
+    else:
+        # rely on the documented defaults (start=None, end=None, coding_only=False, completely_within=True, expand...=False)
+        kw = {k: v for k, v, dflt in (("start", s, None), ("end", e, None), ("coding_only", co, False), ("completely_within", cw, True),
+                                      ("expand_location_to_children", ex, False)) if v != dflt}
+        res, exc = ctx.call(obj.query_by_position, **kw)
     if x["error"]:
         ctx.note((gen, mode, "refusal", flags, tags, "over-expanded" if x.get("over_expanded") else "range"), nontrivial=True,
-                 klass=f"gen{gen}-{mode}-refusal")
+                 klass=f"gen{gen}-{_kind(mode)}-refusal")
         ctx.check("pos.refusal", isinstance(exc, InvalidQueryError),
                   key=("must-refuse", "over-expanded" if x.get("over_expanded") else _why_bad(M, s0, e0), type(exc).__name__ if exc else "answered"),
                   exc=repr(exc)[:200] if exc else None, **detail)
@@ -701,7 +752,7 @@ def _pos_query(ctx, M, obj, s, e, flags, gen, mode):
     shortcut = bool(cw and s0 and e0)
     ctx.note((gen, mode, flags, tags, lv, min(kept, 3), min(total - kept, 3)),
              nontrivial=(0 < kept < total) or bool(set(tags) & {"touch-in", "touch-out", "cuts"}),
-             klass=f"gen{gen}-{mode}-{'strict' if cw else 'relaxed'}{'-shortcut' if shortcut else ''}")
+             klass=f"gen{gen}-{_kind(mode)}-{'strict' if cw else 'relaxed'}{'-shortcut' if shortcut else ''}")
     if shortcut:
         ctx.bump("queries-with-bin-shortcut-active")
         if lv > 0:
@@ -713,8 +764,11 @@ def _pos_query(ctx, M, obj, s, e, flags, gen, mode):
             ctx.seen("pos.refusal")
             ctx.bump("latitude-c-refusals")
             return None
+        extra = {}
+        if type(exc).__name__ == "EmptyLocationException" and M["win"] is not None:
+            extra = _kept_model(x["keep"] + x["optional"], (max(x["bounds"][0], M["win"][0]), min(x["bounds"][1], M["win"][1])))
         ctx.check("pos.refusal", False, key=("valid-query-raised", type(exc).__name__, "vcoll+coding_only" if (co and any(m["t"] == "vcoll" for m in M["members"])) else "plain"),
-                  exc=repr(exc)[:300], has_variant_collections=any(m["t"] == "vcoll" for m in M["members"]), **detail)
+                  exc=repr(exc)[:300], has_variant_collections=any(m["t"] == "vcoll" for m in M["members"]), **extra, **detail)
         return None
     ctx.seen("pos.refusal")
     b = (res.start, res.end)
@@ -722,17 +776,52 @@ def _pos_query(ctx, M, obj, s, e, flags, gen, mode):
                      got=list(b), want=list(x["bounds"]), **detail)
     loc, exc = ctx.call(lambda: (res.chromosome_location.start, res.chromosome_location.end))
     ctx.check("pos.bounds", exc is None and loc == b, key=("chromosome_location", "expand" if ex else "plain"), got=loc, want=list(b), **detail)
-    nw = None
-    if M["win"] is not None:
-        nw = (max(b[0], M["win"][0]), min(b[1], M["win"][1]))
-    ok_m = _check_members(ctx, "pos.members", ("position", "strict" if cw else "relaxed", "shortcut" if shortcut else "no-shortcut",
-                                               "coding" if co else "all"), M, obj, res, x["keep"], x["optional"], nw, detail)
+    ok_m, nw = _check_members(ctx, "pos.members", ("position", "strict" if cw else "relaxed", "shortcut" if shortcut else "no-shortcut",
+                                                   "coding" if co else "all"), M, obj, res, x["keep"], x["optional"], b, detail)
     if not (ok_b and ok_m):
         return None
     gotset = {str(y.guid) for _, y in _real_members(res)}
     M2 = {"start": b[0], "end": b[1], "win": nw, "genome": M.get("genome"),
           "members": [m for m in x["keep"] + x["optional"] if str(m["guid"]) in gotset]}
     return res, M2
+
+
+def _kept_model(kept, win):
+    """Witness data for the classifier of K19 (JSON-able): what the result would have to hold, and on which window."""
+    return {"expected_window": list(win) if win else None,
+            "kept_model": [{"t": m["t"], "span": list(span(m)),
+                            "children": [{"blocks": c["blocks"], "cds": c.get("cds") or []} for c in m["children"]]} for m in kept]}
+
+
+def variant_slice_mechanism(kept_model, win):
+    """K19: the result must hold a variant collection and a gene / feature collection that overlap on the result's chunk, and
+    that gene / feature collection has a transcript, CDS or feature without a single base inside the chunk."""
+    if not win or not kept_model:
+        return False
+    w0, w1 = win
+
+    def clip(sp):
+        return max(sp[0], w0), min(sp[1], w1)
+
+    def empty(blocks):
+        return not any(max(b[0], w0) < min(b[1], w1) for b in blocks)
+
+    vs = [clip(m["span"]) for m in kept_model if m["t"] == "vcoll"]
+    vs = [v for v in vs if v[0] < v[1]]
+    for m in kept_model:
+        if m["t"] == "vcoll":
+            continue
+        a, b = clip(m["span"])
+        if a >= b or not any(max(a, v[0]) < min(b, v[1]) for v in vs):
+            continue
+        for c in m["children"]:
+            if empty(c["blocks"]) or (c.get("cds") and empty(c["cds"])):
+                return True
+    return False
+
+
+def _kind(mode):
+    return "band" if mode.startswith("band") else "seq"
 
 
 def _why_bad(M, s0, e0):
@@ -774,24 +863,25 @@ def _id_suite(ctx, M, obj, rs, pool_n, gen, mode):
             expected = expect_ids(M, fn, sel)
             arg = sel[0] if (len(sel) == 1 and rs.random() < 0.5) else list(sel)      # the API also accepts a single id
             detail = {"function": fn, "ids": [str(z) for z in sel], "collection_bounds": [M["start"], M["end"]],
-                      "window": list(M["win"]) if M["win"] else None, "generation": gen}
+                      "source_window": list(M["win"]) if M["win"] else None, "generation": gen}
             types = tuple(sorted({m["t"] for m in expected}))
             reduced = any(len(m["children"]) < len(next(o for o in mem if o["guid"] == m["guid"])["children"]) for m in expected)
             ctx.note((gen, mode, fn, len(sel), types, min(len(expected), 3), reduced, mask >> (len(pool) - 1) & 1),
-                     nontrivial=0 < len(expected) < len(mem) or reduced, klass=f"gen{gen}-{mode}-{fn}")
+                     nontrivial=0 < len(expected) < len(mem) or reduced, klass=f"gen{gen}-{fn}")
             res, exc = ctx.call(getattr(obj, fn), arg)
             if exc is not None:
                 overhang = any(span(m)[0] < M["start"] or span(m)[1] > M["end"] for m in expected)
+                extra = {}
+                if type(exc).__name__ == "EmptyLocationException" and M["win"] is not None:
+                    # an id query can at most keep the sequence under the operand's own bounds
+                    extra = _kept_model(expected, (max(M["start"], M["win"][0]), min(M["end"], M["win"][1])))
                 ctx.check("id.members", False, key=("raised", fn, type(exc).__name__, "kept-member-overhangs-bounds" if overhang else "inside"),
-                          exc=repr(exc)[:300], kept_spans=[list(span(m)) for m in expected][:6], **detail)
+                          exc=repr(exc)[:300], kept_spans=[list(span(m)) for m in expected][:6], **extra, **detail)
                 continue
             b, exc = ctx.call(lambda: (res.start, res.end))
             if exc is not None:      # empty, unbounded result: nothing to compare besides emptiness
                 b = None
-            nw = None
-            if M["win"] is not None and b is not None:
-                nw = (max(b[0], M["win"][0]), min(b[1], M["win"][1]))
-            ok = _check_members(ctx, "id.members", (fn, "reduced" if reduced else "whole"), M, obj, res, expected, [], nw, detail)
+            ok, nw = _check_members(ctx, "id.members", (fn, "reduced" if reduced else "whole"), M, obj, res, expected, [], b, detail)
             if ok and expected and b is not None and len(outs) < 6 and rs.random() < 0.3:
                 outs.append((res, {"start": b[0], "end": b[1], "win": nw, "genome": M.get("genome"), "members": expected}))
     return outs
@@ -853,4 +943,10 @@ def run_case(case, ctx):
 
 
 def classify(v):
+    """Mechanistic classifiers of proposed known findings."""
+    d = v.get("detail") or {}
+    exc = d.get("exc") or ""
+    if v["monitor"] in ("pos.refusal", "id.members") and exc.startswith("EmptyLocationException") and "Variant incorporation led to an EmptyLocation" in exc:
+        if variant_slice_mechanism(d.get("kept_model"), d.get("expected_window")):
+            return "K19-query-result-with-variants-and-a-child-sliced-away-cannot-be-built"
     return None
